@@ -9,8 +9,8 @@ TNext == /\ l <= Len(Rec)
          /\ LET e  == Rec[l]
                 x0 == IF e.new = 1 THEN XInit ELSE xs
                 lv == IF e.new = 1 THEN TRUE ELSE live
-                c  == ConsoleCallOk(x0, e)
-            IN IF lv THEN (IF c[1] THEN TRUE ELSE FALSE) /\ xs' = c[2] /\ live' = (e.ret[1] = "ok")
+                nx == ConsoleNext(x0, e)
+            IN IF lv THEN (\E y \in nx : xs' = y) /\ live' = (e.ret[1] = "ok")
                ELSE xs' = x0 /\ live' = lv
          /\ l' = l + 1
 TSpec == TInit /\ [][TNext]_<<l, xs, live>>
